@@ -285,17 +285,23 @@ func runC11(c *Ctx) {
 					nki := nk.(ssa.Instruction)
 					var lookup ssa.Value
 					notSelf, allocated := false, false
+					narrow := false
+					_ = narrow
 					for _, g := range guardsOf(nki) {
 						t := shortLease(g.Text)
 						if !strings.Contains(t, "findByIP(recv,LEASE.IPOffer)") {
 							continue
 						}
 						switch {
-						case strings.HasSuffix(t, ".State==2)") && g.Pol:
+						case strings.HasSuffix(t, ".State==0)") && !g.Pol:
+							// the holder is any lease that is not free: an acknowledged client that discovers again is in
+							// state Discover and still holds its address
 							allocated = true
 							if bo, ok := g.Cond.(*ssa.BinOp); ok {
 								lookup = bo.X
 							}
+						case strings.HasSuffix(t, ".State==2)") && g.Pol:
+							narrow = true
 						case strings.HasSuffix(t, "==LEASE)") && !g.Pol:
 							notSelf = true
 						}
@@ -322,7 +328,7 @@ func runC11(c *Ctx) {
 		}
 		r.Add(core.Obligation{Rule: "offer", Key: "offer outstanding offers are visible to the reservation lookup", Func: "(*dhcp4_spoofer.Handler).findByIP", Pos: pos, Status: st,
 			Basis:  fmt.Sprintf("findByIP compares the candidate with Lease.IPOffer: %v; the commit of an offer re-checks with findByIP: %v", seesOffers, recheck),
-			Detail: "findByIP matches Lease.Addr.IP only and the commit `lease.Addr.IP = lease.IPOffer` in handleRequest does not look the address up again: an address offered to one client (not yet requested) is offered to a second client that asks for it, and both REQUESTs are acknowledged"})
+			Detail: "findByIP matches Lease.Addr.IP only and the commit `lease.Addr.IP = lease.IPOffer` in handleRequest is not preceded by a refusal for 'another lease that is not free records the address' (a test for State == Allocated only misses a holder that is re-discovering): an address acknowledged to one client is acknowledged to a second one"})
 	}
 	// (offer) an old offer is not handed out again without going through allocIPOffer: on every path of handleDiscover to
 	// the `IPOffer.IsValid()` test, IPOffer was assigned on that path or the lease is an outstanding offer (state Discover)
@@ -363,8 +369,13 @@ func runC11(c *Ctx) {
 					// client that held an offer for it too, so the repeat is preceded by a look-up of the address
 					rechecked := false
 					for _, cd := range p.Conds {
-						if strings.Contains(shortLeaseD(cd), "findByIP(recv,LEASE.IPOffer)") {
-							rechecked = true
+						if strings.Contains(shortLeaseD(cd), "findByIP(recv,LEASE.IPOffer)") && !strings.Contains(shortLeaseD(cd), ".State==2)") {
+							rechecked = true // compared with nil, with the lease itself or with State == Free
+						}
+					}
+					for _, cd := range p.Conds {
+						if strings.Contains(shortLeaseD(cd), "findByIP(recv,LEASE.IPOffer).State==2)") {
+							rechecked = false // the holder test is 'State == Allocated': a holder that is re-discovering is missed
 						}
 					}
 					if !rechecked {
@@ -725,6 +736,13 @@ func runC12(c *Ctx) {
 			add("subnet", "restored lease attached to the netfilter subnet only with an address inside it", fn, i, same, "a dominating Contains test on the LAN of the subnet being attached",
 				"loadByteArray attaches a captured client's lease to the netfilter subnet without testing the address against that subnet's prefix")
 		})
+	}
+	// the mask precedes the router option whatever the client's parameter list says (decided by the option-order
+	// analysis of AppendOptions, shared with C03)
+	if fn := c.A.Method("", "DHCP4", "AppendOptions"); fn != nil {
+		ost, odet := optionOrderVerdict(c, fn)
+		r.Add(core.Obligation{Rule: "options", Key: "options subnet mask is encoded before the router option", Func: core.FuncName(fn), Pos: c.P.Pos(fn.Pos()), Status: ost,
+			Basis: "AppendOptions emits the mandatory mask / static route / router sequence before the requested order", Detail: odet})
 	}
 	// the reply is encoded in place, in the request's buffer: whatever the reply path needs from the request (the
 	// broadcast flag for the destination) is read before the handlers run, never from the overwritten buffer
